@@ -718,9 +718,9 @@ func (f *frame) execMapUpdate(x *ssa.MapUpdate) {
 	dom, val, ln, _ := f.mapArrays(x.Map.Type(), f.heap)
 	dk, vk, lk := mapKeys(x.Map.Type())
 	had := sel(sel(dom, m), k)
-	c.heapSet(f.heap, lk, store(ln, m, ite(had, sel(ln, m), add(sel(ln, m), tOne))))
-	c.heapSet(f.heap, dk, store(dom, m, store(sel(dom, m), k, tTrue)))
-	c.heapSet(f.heap, vk, store(val, m, store(sel(val, m), k, v)))
+	c.heapSetAt(f.heap, lk, store(ln, m, ite(had, sel(ln, m), add(sel(ln, m), tOne))), m)
+	c.heapSetAt(f.heap, dk, store(dom, m, store(sel(dom, m), k, tTrue)), m)
+	c.heapSetAt(f.heap, vk, store(val, m, store(sel(val, m), k, v)), m)
 }
 
 func (f *frame) mapDelete(mv, kv Val, t types.Type) {
@@ -729,8 +729,8 @@ func (f *frame) mapDelete(mv, kv Val, t types.Type) {
 	dom, _, ln, _ := f.mapArrays(t, f.heap)
 	dk, _, lk := mapKeys(t)
 	had := and(not(eq(m, tNil)), sel(sel(dom, m), k))
-	c.heapSet(f.heap, lk, store(ln, m, ite(had, sub(sel(ln, m), tOne), sel(ln, m))))
-	c.heapSet(f.heap, dk, store(dom, m, store(sel(dom, m), k, tFalse)))
+	c.heapSetAt(f.heap, lk, store(ln, m, ite(had, sub(sel(ln, m), tOne), sel(ln, m))), m)
+	c.heapSetAt(f.heap, dk, store(dom, m, store(sel(dom, m), k, tFalse)), m)
 }
 
 func (f *frame) execNext(x *ssa.Next) {
@@ -863,6 +863,7 @@ func (f *frame) havocAll(why string) {
 	f.heap = c.newEpoch()
 	c.assume(implies(f.guard, ge(c.nalloc(f.heap), old)))
 	c.keepGhost(prev, f.heap, nil)
+	f.keepPrivate(prev, f.heap)
 }
 
 // keepGhost: ghost fields are specification state; code without a contract cannot name them, so a
